@@ -191,6 +191,9 @@ def install_guarded_summary():
     def stats_only(a, b):
         geps = G._Guarded__geps
         gd = abs(a - b)
+        for st in (G.maxDiff, G.minDiff, geps):
+            if not isinstance(st, (int, SymInt)):
+                st < 0      # a foreign object (C20's poison): let it speak for itself
         if isinstance(gd, int) and not isinstance(G.maxDiff, SymInt) and not isinstance(G.minDiff, SymInt):
             if geps > gd > G.maxDiff:
                 G.maxDiff = gd
